@@ -76,6 +76,83 @@ def make_base(ctx, eng, ce, second_cpu=False):
     return b
 
 
+def table_entry(eng, st, b, name, idx):
+    """entry idx of a dispatch table, whether the tables are CPU fields or package-level variables"""
+    if eng.p.field_index(b.tid, name) is not None:
+        arr = fld(eng, st, b, name)
+    else:
+        arr = st.heap.get("g:cpu." + name)
+    return arr.items[idx]
+
+
+def poison_boundary(eng, st, b):
+    """an instruction boundary as left by a conditional instruction that ran to its last cycle (RET NZ): every piece of
+    per-instruction state holds stale non-default values that the next fetch must overwrite"""
+    set_field(eng, st, b, "currentSubinstructions", table_entry(eng, st, b, "normal", 0xc0))
+    set_field(eng, st, b, "currentIsFinishedEarly", table_entry(eng, st, b, "isFinishedEarlys", 0xc0))
+    set_field(eng, st, b, "currentCycle", z3.BitVecVal(5, 64))
+    set_field(eng, st, b, "currentInstruction", z3.BitVecVal(0xc0, 8))
+
+
+def same_value(eng, x, y):
+    """violation term: x and y differ (structural for references)"""
+    if is_z3(x) and is_z3(y):
+        if x.eq(y):
+            return z3.BoolVal(False)
+        return x != y
+    if isinstance(x, SliceV) and isinstance(y, SliceV):
+        same = x.obj == y.obj and x.path == y.path and concrete_int(x.off) == concrete_int(y.off) and concrete_int(x.len) == concrete_int(y.len)
+        return z3.BoolVal(not same)
+    if isinstance(x, Closure) and isinstance(y, Closure):
+        same = x.fn == y.fn and len(x.bind) == len(y.bind) and all((isinstance(p, Ptr) and p.same(q)) or p is q for p, q in zip(x.bind, y.bind))
+        return z3.BoolVal(not same)
+    if isinstance(x, (StructV, ArrV)) and type(x) is type(y) and len(x.items) == len(y.items):
+        return z3.Or(*[same_value(eng, p, q) for p, q in zip(x.items, y.items)]) if x.items else z3.BoolVal(False)
+    if isinstance(x, Ptr) and isinstance(y, Ptr):
+        return z3.BoolVal(not x.same(y))
+    return z3.BoolVal(x is not y)
+
+
+def boundary_independent(ctx, eng, b, pre_state, script):
+    """violation: the first machine cycle of the instruction leaves a different CPU state / bus trace when the boundary
+    holds stale per-instruction state (poison) than from the power-on boundary"""
+    emc = ctx.prog.func(CPU + "ExecuteMachineCycle").name
+    res = []
+    for poison in (False, True):
+        s = pre_state.fork()
+        if poison:
+            poison_boundary(eng, s, b)
+        s.ghost["script"] = tuple(script)
+        s.ghost["cycle"] = 1
+        saved_t, saved_o = eng.terminals, eng.obligs
+        eng.terminals, eng.obligs = [], []
+        outs = eng.call_function(s, emc, [b.cpu])
+        res.append((outs, list(eng.terminals)))
+        eng.terminals, eng.obligs = saved_t, saved_o
+    (oa, ta), (ob_, tb) = res
+    if len(ta) != len(tb):
+        return z3.BoolVal(True)
+    viol = []
+    # every feasible combination of a power-on-boundary outcome and a stale-boundary outcome must agree
+    for (sa, _) in oa:
+        for (sb, _) in ob_:
+            both = z3.And(sa.pcond(), sb.pcond())
+            d = []
+            if len(sa.trace) != len(sb.trace) or any(ea[0] != eb[0] for ea, eb in zip(sa.trace, sb.trace)):
+                d.append(z3.BoolVal(True))
+            else:
+                for ea, eb in zip(sa.trace, sb.trace):
+                    for x, y in zip(ea[1:], eb[1:]):
+                        if is_z3(x) and is_z3(y):
+                            d.append(same_value(eng, x, y))
+            d.append(same_value(eng, sa.heap[b.cpu.obj], sb.heap[b.cpu.obj]))
+            d.append(same_value(eng, sa.heap[b.ints.obj], sb.heap[b.ints.obj]))
+            viol.append(z3.And(both, z3.Or(*d)))
+    if not oa and ob_ or oa and not ob_:
+        return z3.BoolVal(True)
+    return z3.Or(*viol) if viol else z3.BoolVal(False)
+
+
 def fld(eng, st, b, name):
     path = eng.p.field_index(b.tid, name)
     return eng.load(st, Ptr(b.cpu.obj, tuple(i for i, _ in path)))
@@ -171,7 +248,9 @@ def instruction_lemma(ctx, eng, ce, b, op, cb=None, haltbug=False):
     eng.obligs = []
     script = [op] if cb is None else [0xCB, cb]
     finals = run_to_boundary(ctx, eng, b, st, script)
-    out = {"regs": [], "flags": [], "mem": [], "frame": [], "cycles": [], "accesses": [], "flow": [], "nopanic": []}
+    out = {"regs": [], "flags": [], "mem": [], "frame": [], "cycles": [], "accesses": [], "flow": [], "nopanic": [], "boundary": []}
+    if not haltbug:
+        out["boundary"].append((boundary_independent(ctx, eng, b, pre_state, script), pre_state))
     name = opname(op, cb)
     conditional = cb is None and sm83.is_conditional(op)
     rdsyms = {}
@@ -263,7 +342,9 @@ def instruction_lemma(ctx, eng, ce, b, op, cb=None, haltbug=False):
     return out, pre_state, specs
 
 
-ASPECTS = {"C04": ["frame", "flow"], "C05": ["regs", "flags", "mem", "frame", "cycles", "flow"], "C01": ["regs", "flags", "mem", "frame", "flow", "nopanic"], "C02": ["cycles", "flow"], "C03": ["accesses", "flow"]}
+ASPECTS = {"C04": ["frame", "flow", "boundary"], "C05": ["regs", "flags", "mem", "frame", "cycles", "flow"],
+           "C01": ["regs", "flags", "mem", "frame", "flow", "nopanic", "boundary"], "C02": ["cycles", "flow", "boundary"],
+           "C03": ["accesses", "flow", "boundary"]}
 
 
 def opcode_chunks(nchunks=32):
@@ -286,7 +367,7 @@ def opcode_task(prop, chunk, idx):
                 else:
                     viol = z3.Or(*[v for v, _ in items])
                 ob = lem.add("lemma:%s:%s" % (nm, asp), viol, kind="lemma", state=None,
-                             info={"op": op, "cb": cb, "aspect": asp, "replay": cpu_replay})
+                             info={"op": op, "cb": cb, "aspect": asp, "replay": (boundary_replay if asp == "boundary" else cpu_replay)})
                 ob.pre = pre_state
                 ob.base = b
                 ob.eng = eng
@@ -483,6 +564,10 @@ def ei_replay(ctx, prop, ob, res):
 
 
 def state_same(eng, b, s, pre_state, extra_ok=()):
+    return _state_same(eng, b, s, pre_state, extra_ok)
+
+
+def _state_same(eng, b, s, pre_state, extra_ok=()):
     """violation: some architectural CPU field or interrupt register differs between s and pre_state"""
     v = []
     for r in ARCH_FIELDS:
@@ -492,7 +577,8 @@ def state_same(eng, b, s, pre_state, extra_ok=()):
     for e in IBITS:
         v.append(ifld(eng, s, b, e + "Requested") != ifld(eng, pre_state, b, e + "Requested"))
         v.append(ifld(eng, s, b, e + "Enabled") != ifld(eng, pre_state, b, e + "Enabled"))
-    v.append(ifld(eng, s, b, "ime") != ifld(eng, pre_state, b, "ime"))
+    if "ime" not in extra_ok:
+        v.append(ifld(eng, s, b, "ime") != ifld(eng, pre_state, b, "ime"))
     v.append(ifld(eng, s, b, "ieHighBits") != ifld(eng, pre_state, b, "ieHighBits"))
     return z3.Or(*v)
 
@@ -511,21 +597,37 @@ def halt_lemmas(ctx, eng, ce):
 
     def rep(ninstr=1):
         return {"ninstr": ninstr, "replay": lambda c, pr, o, res: dispatch_replay(c, pr, o, res)}
-    # (1) HALT executed: halts unless IME is clear and a request is already pending (then: halt bug)
-    st, pre, pre_state = start(lambda st, pre: [z3.Not(z3.And(pre["ime"], pending_term(eng, st, b))), z3.Not(fld(eng, st, b, "halted")),
-                                                z3.Not(fld(eng, st, b, "stopped")), z3.Not(fld(eng, st, b, "haltbug"))])
+    # (1) HALT executed: halts unless IME is clear and a request is already pending (then: halt bug).
+    #     IME at execution time includes an EI whose one-instruction delay ends with this fetch.
+    def armed_term(st_):
+        t = z3.BoolVal(False)
+        for nm in ("eiPending", "eiDelay", "imeScheduled", "enableInterrupts"):
+            if has_field(eng, b, nm):
+                v = fld(eng, st_, b, nm)
+                t = z3.Or(t, v if z3.is_bool(v) else v != 0)
+        return t
+    st = b.st.fork()
+    pre = pre_regs(eng, st, b)
+    for h in [z3.Not(z3.And(pre["ime"], pending_term(eng, st, b))), z3.Not(fld(eng, st, b, "halted")), z3.Not(fld(eng, st, b, "stopped")),
+              z3.Not(fld(eng, st, b, "haltbug")), (pre["f"] & 0x0f) == 0]:
+        st.pc.append(h)
+    pre_state = st.fork()
     lem.covers.append(("lemma:halt#cover", pre_state.pcond()))
+    lem.covers.append(("lemma:halt#cover:ime-and-pending-at-execution", z3.And(pre_state.pcond(), armed_term(pre_state), pending_term(eng, pre_state, b))))
     eng.terminals, eng.obligs = [], []
     finals = run_to_boundary(ctx, eng, b, st, [0x76])
     pend0 = pending_term(eng, pre_state, b)
-    bug = z3.And(z3.Not(pre["ime"]), pend0)
+    ime_exec = z3.Or(pre["ime"], armed_term(pre_state))
+    bug = z3.And(z3.Not(ime_exec), pend0)
 
     def chk_halt(s, n):
         g = s.pcond()
         evs = bus_events(s.trace)
         return {"decision": z3.And(g, z3.Or(fld(eng, s, b, "halted") != z3.Not(bug), fld(eng, s, b, "haltbug") != bug)),
                 "one-cycle": z3.And(g, z3.BoolVal(n != 1 or len(evs) != 1)),
-                "rest-unchanged": z3.And(g, z3.Or(fld(eng, s, b, "pc") != pre["pc"] + 1, state_same(eng, b, s, pre_state, ("pc", "halted", "haltbug"))))}
+                "ime": z3.And(g, z3.Or(ifld(eng, s, b, "ime") != ime_exec, armed_term(s))),
+                "rest-unchanged": z3.And(g, z3.Or(fld(eng, s, b, "pc") != pre["pc"] + 1,
+                                                  state_same(eng, b, s, pre_state, ("pc", "halted", "haltbug", "ime"))))}
     add_group(lem, "lemma:halt-executed", finals, chk_halt, pre_state, rep())
     if not finals:
         lem.add("lemma:halt-executed:flow", z3.BoolVal(True))
@@ -726,3 +828,8 @@ def two_replay(ctx, prop, ob, res):
     else:
         rep.update(status="confirmed", reason="stepping the first machine changed the second or did not change the first")
     return rep
+
+
+def boundary_replay(ctx, prop, ob, res):
+    return {"status": "unconfirmed", "reason": "boundary-independence lemma: the first machine cycle of this opcode depends on per-instruction "
+            "state left over by the previous instruction (currentSubinstructions / currentCycle / currentIsFinishedEarly); no single-instruction replay"}
